@@ -220,13 +220,18 @@ def bbox_of(segs):
     return (min(xs), min(ys), max(xs), max(ys))
 
 
-def gen_doc(rng, pool=None, solid_only=False, max_items=4, allow_groups=True, viewbox=None, allow_special=True, var_opaque=False, stress=False):
+def random_viewbox(rng):
+    w = rng.choice([24, 100, 128, 1000])
+    aspect = rng.choice([1, 1, 1, 0.5, 2, 0.25, 4, 1.5])
+    return (rng.choice([0, 0, -10, 13]), rng.choice([0, 0, 7, -20]), w * aspect, w)
+
+
+def gen_doc(rng, pool=None, solid_only=False, max_items=4, allow_groups=True, viewbox=None, allow_special=True, var_opaque=False, stress=False, grad_pool=None):
     """One source.  `pool` is a list of (kind, base segments) shared between the documents of
-    one font so that shapes recur under isometries/scales (cross-glyph reuse)."""
+    one font so that shapes recur under isometries/scales (cross-glyph reuse); `grad_pool`
+    a list of user-space gradients shared likewise (one gradient used by several glyphs)."""
     if viewbox is None:
-        w = rng.choice([24, 100, 128, 1000])
-        aspect = rng.choice([1, 1, 1, 0.5, 2, 0.25, 4, 1.5])
-        viewbox = (rng.choice([0, 0, -10, 13]), rng.choice([0, 0, 7, -20]), w * aspect, w)
+        viewbox = random_viewbox(rng)
     vx, vy, vw, vh = viewbox
     unit = min(vw, vh)
 
@@ -256,7 +261,14 @@ def gen_doc(rng, pool=None, solid_only=False, max_items=4, allow_groups=True, vi
             dlt = rng.choice([0.03, 0.08, 0.15, 0.3])
             sg = placed[i]
             placed[i] = sg[:-1] + ((sg[-1][0] + dlt, sg[-1][1] - dlt),)
-        fill = gen_solid(rng, allow_special) if (solid_only or rng.random() < 0.55) else gen_gradient(rng, bbox_of(placed))
+        if solid_only or rng.random() < 0.55:
+            fill = gen_solid(rng, allow_special)
+        elif grad_pool and rng.random() < 0.5 and any(vb == viewbox for vb, _ in grad_pool):
+            fill = rng.choice([g for vb, g in grad_pool if vb == viewbox])  # same user space: the same gradient
+        else:
+            fill = gen_gradient(rng, bbox_of(placed))
+            if grad_pool is not None and fill.units == "userSpaceOnUse":
+                grad_pool.append((viewbox, fill))
         op = rng.choice([1.0, 1.0, 1.0, 0.5, 0.8]) if not solid_only or rng.random() < 0.3 else 1.0
         if var_opaque and isinstance(fill, Solid) and fill.css.startswith("var("):
             op = 1.0  # COLRv0 keeps alpha in the palette entry: one index, one alpha
